@@ -21,6 +21,13 @@ CONDS = {
 # the Familiengemeinschaft conditions are decided by rulesym + z3 on the real fg_id_numpy (gsv.fgsym):
 # CrossHair finds their counterexamples but does not confirm them within budget even at N=3
 TWINS = ["check_eg_twin", "check_sn_twin"]
+# fallback (bug finding only) when the z3 engine cannot encode fg_id_numpy: CrossHair on the same claims
+FG_CONDS = {
+    "check_fg_partner": "partners share a Familiengemeinschaft",
+    "check_fg_child": "a co-resident childless child under 25 shares the family unit of its parent(s) and their partner",
+    "check_fg_nopath": "persons without a pointer path, or in different households, are in different family units",
+    "check_fg_order": "the family-unit partition is the same for every row order",
+}
 
 
 def replay_cex(cond, cex, n):
@@ -61,6 +68,10 @@ def run(tier):
         groupsym.run_all(ck, 5, which=("eg", "sn", "bg", "wthh"))
     # second, independent engine: CrossHair on the same functions at N=3
     conds = [c for c in CONDS if tier == "thorough" or c != "check_bg"]
+    if any(k.startswith("fg_id_numpy") for k in ck.not_encoded):
+        CONDS.update(FG_CONDS)
+        conds += list(FG_CONDS)
+        ck.extra["fg_fallback"] = "fg_id_numpy not encodable by rulesym: CrossHair conditions added (counterexamples only; no confirmation expected)"
     n_xh = 3
     res = GC.run_conditions(ck, "C12", n_xh, conds, 150 if tier == "quick" else 400, excl, TWINS)
     n_main, n = n, n_xh
